@@ -6,7 +6,8 @@ GENERATED = ["coreflags"]
 THEOREMS = ["Pomerol.Properties.C18." + t for t in (
     "enumeration_is_exactly_the_valid_triples", "enumeration_has_no_repetition", "table_size", "prepare_succeeds",
     "inverse_of_forward", "forward_of_inverse", "invalid_triple_maps_to_size", "out_of_range_index_rejected",
-    "ordering_modes_differ_by_a_permutation", "break_variant_was_wrong")]
+    "ordering_modes_differ_by_a_permutation", "break_variant_was_wrong", "renumbered_representation_is_car", "mode_switch_is_renumbering", "renaming_sites_is_renumbering",
+    "results_change_by_the_induced_permutation", "mode_switch_matrices_similar", "renaming_matrices_similar")]
 RULE = ("a case = random lattice (1-4 sites, 0-3 orbitals, 1-3 spins per site, arbitrary ASCII labels) under both ordering "
         "modes: full forward and inverse tables against the model, invalid triples, out-of-range indices; plus relabelled / "
         "mode-switched reruns of whole models whose G, occupancies and spectrum must agree after the induced index "
@@ -21,7 +22,7 @@ LEVEL_TEXT = ("Proof: for every list of sites with distinct labels and both orde
               "getInfo(getIndex x) = x, getIndex(getInfo i) = i, invalid triples map to N, out-of-range indices are rejected, "
               "and the two modes differ by a permutation. PARTIAL: invariance of the physics under relabelling/mode switch "
               "is established by differential reruns (G_ij, <n_i>, spectrum compared after permuting indices).")
-LEVEL_NOTE = "Trusted: Lean kernel; std::map order = byte order of labels; hash injectivity; invariance sentence by execution only."
+LEVEL_NOTE = "Trusted: Lean kernel; std::map order = byte order of labels; hash injectivity; the invariance sentence is proved at the operator level (the two Hamiltonians are the same operator after renumbering the field operators by the induced permutation, and the two Jordan-Wigner matrices are similar via an explicit unit); Green's functions themselves follow by the representation-independent theorems of C01 etc. and are additionally compared by execution."
 TECHNIQUE = "Lean 4 proof of the bijection over the modelled enumeration + differential reruns under relabelling"
 DESIGN_REF = "DESIGN.md section 6, C18"
 
